@@ -32,7 +32,7 @@ Theorem sends_and_receipts_any : forall (sparse : bool) ops n w d kinds eps nspe
       exists gh, nth_error gs (Z.to_nat pl) = Some gh /\ 0 <= f < hlen (fst gh) /\ hval (fst gh) f = v) /\
     (forall pl e gh f, 0 <= pl -> nth_error kinds (Z.to_nat pl) = Some (KRemote e) ->
       nth_error gs (Z.to_nat pl) = Some gh -> 0 <= f < hlen (fst gh) -> In (SRemote pl f (hval (fst gh) f)) ops) /\
-    ps_kinds p = kinds /\ OB p gs.
+    ps_kinds p = kinds /\ OB p gs /\ Forall (confirmed_ok gs) (all_adv_frames [] outs).
 Proof.
   intros sparse ops n w d kinds eps nspec p outs [(Hw & Hc)|(-> & -> & Hc)] Hd Hn Hl Hp H.
   - destruct sparse.
@@ -56,7 +56,7 @@ Theorem session_buffers_bounded : forall (sparse : bool) ops n w d kinds eps nsp
 Proof.
   intros sparse ops n w d kinds eps nspec p outs Hm Hd Hn Hl Hp H.
   destruct (sends_and_receipts_any sparse ops n w d kinds eps nspec p outs Hm Hd Hn Hl Hp H)
-    as (g & gs & _ & HQS & _ & _ & _ & _ & _ & _ & HB).
+    as (g & gs & _ & HQS & _ & _ & _ & _ & _ & _ & HB & _).
   split; [|split; [intros Hr Hlo; exact (proj1 (HB Hr Hlo))|exists gs; split; assumption]].
   pose proof (qs_qs _ _ _ _ HQS) as HQ. unfold QsI in HQ.
   clear HB HQS. induction HQ as [|q gh qs gs' Hqi _ IH]; [constructor|]. constructor; [|exact IH].
@@ -87,9 +87,9 @@ Proof.
   intros sparseA sparseB opsA opsB n wA wB dA dB kindsA kindsB epsA epsB nspecA nspecB pA pB outsA outsB
          HmA HdA HmB HdB Hn HlA HlB HpA HpB HA HB.
   destruct (sends_and_receipts_any sparseA opsA n wA dA kindsA epsA nspecA pA outsA HmA HdA Hn HlA HpA HA)
-    as (gA & gsA & ExA & HQA & _ & HheldA & HroundsA & _ & _ & HkA & _).
+    as (gA & gsA & ExA & HQA & _ & HheldA & HroundsA & _ & _ & HkA & _ & _).
   destruct (sends_and_receipts_any sparseB opsB n wB dB kindsB epsB nspecB pB outsB HmB HdB Hn HlB HpB HB)
-    as (gB & gsB & ExB & HQB & _ & HheldB & _ & _ & HcvB & HkB & _).
+    as (gB & gsB & ExB & HQB & _ & HheldB & _ & _ & HcvB & HkB & _ & _).
   exists gA, gB. split; [exact ExA|]. split; [exact ExB|].
   intros h e Hh HlocA HremB Hlink f HfA HcfA HfB HcfB.
   (* B: frame f of player h was simulated with the input held, which arrived with an operation *)
@@ -114,6 +114,47 @@ Proof.
   rewrite Hmh in HmA0. injection HmA0 as -> Hv.
   destruct (HheldA _ _ _ f' EgA HfA HcfA) as (_ & HvA).
   rewrite HvA, HvB. symmetry. exact Hv.
+Qed.
+
+(* C03 across the link: every input the receiver EVER hands out as Confirmed for the owner's player - in first
+   simulations and re-simulations alike - is the input the owner holds (has registered: the input submitted, shifted
+   by the input delay) for that frame *)
+Theorem two_sessions_confirmed_inputs :
+  forall (sparseA sparseB : bool) (opsA opsB : list sop) (n wA wB dA dB : Z) (kindsA kindsB : list pkind)
+         (epsA epsB : list (list Z)) (nspecA nspecB : nat) (pA pB : p2p) (outsA outsB : list (pout * apires)),
+  mode_ok sparseA wA dA -> 0 <= dA -> mode_ok sparseB wB dB -> 0 <= dB ->
+  0 < n -> Z.of_nat (length kindsA) = n -> Z.of_nat (length kindsB) = n -> players_only kindsA -> players_only kindsB ->
+  srun_in predict (session_start n wA sparseA dA kindsA epsA nspecA) opsA = Ok (pA, outsA) ->
+  srun_in predict (session_start n wB sparseB dB kindsB epsB nspecB) opsB = Ok (pB, outsB) ->
+  exists gsA, QSg sparseA wA dA pA gsA /\
+    forall h e, 0 <= h -> nth_error kindsA (Z.to_nat h) = Some KLocal -> nth_error kindsB (Z.to_nat h) = Some (KRemote e) ->
+      delivered_was_sent h outsA opsB ->
+      forall f ins v, In (f, ins) (all_adv_frames [] outsB) -> nth_error ins (Z.to_nat h) = Some (v, Confirmed) ->
+        exists histA lowA, nth_error gsA (Z.to_nat h) = Some (histA, lowA) /\ 0 <= f < hlen histA /\ v = hval histA f.
+Proof.
+  intros sparseA sparseB opsA opsB n wA wB dA dB kindsA kindsB epsA epsB nspecA nspecB pA pB outsA outsB
+         HmA HdA HmB HdB Hn HlA HlB HpA HpB HA HB.
+  destruct (sends_and_receipts_any sparseA opsA n wA dA kindsA epsA nspecA pA outsA HmA HdA Hn HlA HpA HA)
+    as (gA & gsA & ExA & HQA & _ & _ & HroundsA & _ & _ & HkA & _ & _).
+  destruct (sends_and_receipts_any sparseB opsB n wB dB kindsB epsB nspecB pB outsB HmB HdB Hn HlB HpB HB)
+    as (gB & gsB & ExB & HQB & _ & _ & _ & _ & HcvB & HkB & _ & HcokB).
+  exists gsA. split; [exact HQA|].
+  intros h e Hh HlocA HremB Hlink f ins v Hin Hc.
+  rewrite Forall_forall in HcokB. destruct (HcokB _ Hin (Z.to_nat h) v Hc) as ([histB lowB] & EgB & HfB & HvB).
+  cbn [fst snd] in HfB, HvB.
+  pose proof (HcvB h e (histB, lowB) f Hh HremB EgB HfB) as HinB. cbn [fst] in HinB. rewrite HvB in HinB.
+  destruct (Hlink _ _ HinB) as (m & Hm & Hmh).
+  assert (HinA : In h (local_handles pA)).
+  { apply (local_handles_spec pA h (QS_nplayers _ _ _ _ _ HQA)). rewrite HkA. split; [|exact HlocA].
+    rewrite (QS_nplayers _ _ _ _ _ HQA), HkA. assert (nth_error kindsA (Z.to_nat h) <> None) as X by congruence.
+    apply nth_error_Some in X. lia. }
+  assert (HlenA : (Z.to_nat h < length gsA)%nat).
+  { destruct (qs_n _ _ _ _ HQA) as (_ & _ & X & _). rewrite HkA in X. rewrite <- X. apply nth_error_Some. congruence. }
+  destruct (nth_error gsA (Z.to_nat h)) as [[histA lowA]|] eqn:EgA; [|apply nth_error_None in EgA; lia].
+  unfold rounds_ok in HroundsA. rewrite Forall_forall in HroundsA.
+  destruct (HroundsA m Hm) as (f' & Hf' & Hr). destruct (Hr h (histA, lowA) HinA EgA) as (HltA & HmA0). cbn [fst] in HltA, HmA0.
+  rewrite Hmh in HmA0. injection HmA0 as -> Hv.
+  exists histA, lowA. split; [reflexivity|]. split; [lia|exact Hv].
 Qed.
 
 (* ---------- a host and a spectator ---------- *)
